@@ -499,8 +499,6 @@ func (s *Stub) clientObj(id string) obj {
 	return o
 }
 
-var e2eZero = obj{"count": 0, "percentiles": nil}
-
 func (s *Stub) serveNsqd(w http.ResponseWriter, r *http.Request, cl *Cluster, f string) {
 	me := cl.Nsqd[s.name]
 	q := r.URL.Query()
@@ -524,13 +522,17 @@ func (s *Stub) serveNsqd(w http.ResponseWriter, r *http.Request, cl *Cluster, f 
 			w.Write([]byte(`{"version":"1.3.0","health":"OK","start_time":1,"topics":[null],"producers":[]}`))
 			return
 		}
-		withE2e := func(o obj) {
+		// end-to-end latency as an nsqd run with --e2e-processing-latency-percentile=0.99,0.5 reports it; the numbers are
+		// the record's own counters (samples = message_count, 99th = depth, median = backend_depth), so that the model
+		// needs no further fields
+		withE2e := func(o obj, count, p99, p50 int64) {
 			switch f {
 			case "noe2e":
 			case "nulle2e":
 				o["e2e_processing_latency"] = nil
 			default:
-				o["e2e_processing_latency"] = e2eZero
+				o["e2e_processing_latency"] = obj{"count": count, "percentiles": []interface{}{
+					obj{"quantile": 0.99, "value": p99}, obj{"quantile": 0.5, "value": p50}}}
 			}
 		}
 		topics := []interface{}{}
@@ -575,7 +577,7 @@ func (s *Stub) serveNsqd(w http.ResponseWriter, r *http.Request, cl *Cluster, f 
 					"message_count": cc.MessageCount.V(), "requeue_count": cc.Requeue.V(),
 					"timeout_count": cc.Timeout.V(), "client_count": len(cc.Clients), "clients": clients,
 					"paused": cc.Paused}
-				withE2e(co)
+				withE2e(co, cc.MessageCount.V(), cc.Depth.V(), cc.BackendDepth.V())
 				chans = append(chans, co)
 			}
 			if f == "nullchan" && first {
@@ -584,7 +586,7 @@ func (s *Stub) serveNsqd(w http.ResponseWriter, r *http.Request, cl *Cluster, f 
 			first = false
 			to := obj{"topic_name": t, "channels": chans, "depth": tc.Depth.V(), "backend_depth": tc.BackendDepth.V(),
 				"message_count": tc.MessageCount.V(), "message_bytes": 0, "paused": tc.Paused}
-			withE2e(to)
+			withE2e(to, tc.MessageCount.V(), tc.Depth.V(), tc.BackendDepth.V())
 			topics = append(topics, to)
 		}
 		writeJSON(w, 200, obj{"version": "1.3.0", "health": "OK", "start_time": 1, "topics": topics,
